@@ -382,7 +382,7 @@ PROPS = {
 }
 
 
-def classify(prop, engine, case):
+def classify(prop, engine, case, failed_extra=()):
     """signature of a failing case; must be stable and specific enough that a different violation
     of the same property gets a different signature"""
     inp = case.get('input') or {}
@@ -400,6 +400,8 @@ def classify(prop, engine, case):
             return 'C13-eoflike-reset'
         return '%s-proxy-%s-%s' % (prop, inp.get('Resp'), end)
     if engine == 'explore':
+        if 'c20rest' in failed_extra:
+            return 'C20-beyond-one-probe-per-target'   # something other than the duplicate probe fails on this history
         ops = inp.get('Ops') or []
         obs = case.get('observed') or []
         for i, ob in enumerate(obs):
